@@ -195,6 +195,10 @@ def child_main(argv):
     from ..loader import ht
     from .. import gen
 
+    from ..mon.canary import Canary
+
+    canary = Canary()  # constructions made before anything else happens in this process
+    canary_diffs = []
     items = battery(seed, n)
     res = {}
     if mode == "only":
@@ -205,7 +209,13 @@ def child_main(argv):
         # (caches, counters) built by one order cannot make the next order agree with it
         rng = random.Random(1234)
         order = {"forward": list(range(n)), "reversed": list(range(n))[::-1], "shuffled": rng.sample(range(n), n)}[mode]
-        res[mode] = {str(i): run_item(*items[i]) for i in order}
+        res[mode] = {}
+        for k_, i in enumerate(order):
+            res[mode][str(i)] = run_item(*items[i])
+            if k_ % 25 == 24 and not canary_diffs:
+                d = canary.check()
+                if d:
+                    canary_diffs = ["after item %d (%s): %s" % (i, items[i][0], "; ".join(d[:4]))]
     else:
         inter = {}
         for i in range(n):
@@ -219,6 +229,11 @@ def child_main(argv):
                 continue
             inter[str(i)] = run_item(*items[i])
         res["interleaved"] = inter
+    if not canary_diffs:
+        d = canary.check()
+        if d:
+            canary_diffs = ["at the end of the run: " + "; ".join(d[:4])]
+    res["canary"] = canary_diffs
     res["hashseed"] = os.environ.get("PYTHONHASHSEED")
     res["hash_probe"] = hash("probe") & 0xFFFF
     json.dump(res, sys.stdout)
@@ -252,6 +267,11 @@ def run(ctx):
         for r_ in raw[k * len(ORDERS):(k + 1) * len(ORDERS)]:
             merged.update(r_)
         outs.append(merged)
+    for r_, (hs, od) in zip(raw, jobs):
+        ctx.count("monitor.canary_checks")
+        if r_.get("canary"):
+            ctx.violation("output-depends-on-history", "objects built at process start render differently (or were changed) later in the process: %s" % r_["canary"][0],
+                          {"hashseed": str(hs), "order": od, "canary": r_["canary"]})
     ctx.notes["distinct_hash_functions_observed"] = len({o["hash_probe"] for o in raw})
     ctx.notes["processes"] = len(raw)
     ref = outs[0]["forward"]
